@@ -192,6 +192,13 @@ class Parser:
                 self.expr()
             self.expect("]")
             return ("ty", "slice", [inner])
+        if self.at("impl") and self.at("Iterator", 1) and self.at("<", 2) and self.at("Item", 3) and self.at("=", 4):
+            # `impl Iterator<Item = T>` consumed once: the list of the items it yields
+            for _ in range(5):
+                self.next()
+            inner = self.ty()
+            self.expect(">")
+            return ("ty", "slice", [inner])
         if self.at("impl") or self.at("dyn"):
             raise Unsupported("impl/dyn type")
         name = self.ident()
@@ -209,6 +216,8 @@ class Parser:
             self.expect(">")
         if name in ("Box", "Rc") and len(args) == 1:
             return args[0]
+        if name == "Iter" and len(args) == 1:
+            return ("ty", "slice", [args[0]])         # std::slice::Iter consumed once: the list of the items
         return ("ty", name, args)
 
     # ---- patterns
@@ -1052,10 +1061,10 @@ class Ctx:
         return None
 
     def derives(self, name):
-        d = set()
-        for s in self.sources:
-            d |= s.derives.get(name, set())
-        return d
+        for s in self.sources:                 # the source that defines the type (as struct() / enum() resolve it)
+            if name in s.structs or name in s.enums:
+                return s.derives.get(name, set())
+        return set()
 
     def fresh(self, base="t"):
         self.tmp += 1
@@ -1140,7 +1149,7 @@ def has_exit(e):
     found = []
 
     def f(x):
-        if x[0] == "mcall" and x[2] in MUTATING_METHODS:
+        if x[0] == "mcall" and x[2] in MUTATING_METHODS and id(x) not in NONMUT_NODES:
             found.append(x)
     walk(e, f)
     return bool(found)
@@ -1160,7 +1169,7 @@ def assigned_vars(e):
             r = root(x[2])
             if r and r not in out:
                 out.append(r)
-        if x[0] == "mcall" and x[2] in MUTATING_METHODS:
+        if x[0] == "mcall" and x[2] in MUTATING_METHODS and id(x) not in NONMUT_NODES:
             r = root(x[1])
             if r and r not in out:
                 out.append(r)
@@ -1206,7 +1215,11 @@ def let_bound(e):
     return out
 
 
-MUTATING_METHODS = {"push", "extend_from_slice", "resize", "truncate"}          # plus the &mut self methods of the translated set (added per module)
+# method-call nodes (by identity) whose name is that of a &mut self method of the module but whose receiver
+# type is known to have a translated method of that name taking &self (e.g. Automaton::next vs Iterator::next)
+NONMUT_NODES = set()
+BASE_MUTATING = ("push", "extend_from_slice", "resize", "truncate", "sort_by_key", "retain", "sort_unstable", "sort")
+MUTATING_METHODS = set(BASE_MUTATING)          # plus the &mut self methods of the translated set (added per module)
 
 
 class FnTranslator:
@@ -1261,6 +1274,18 @@ class FnTranslator:
                         if p_[0] == "pbind" and p_[1] not in known and pt is not None:
                             known[p_[1]] = pt
                             changed = True
+            if k == "for":
+                it_t = self.ty_of(x[2], known)
+                if is_list(it_t):
+                    et = it_t[2][0]
+                    if x[1][0] == "pbind" and x[1][1] not in known:
+                        known[x[1][1]] = et
+                        changed = True
+                    if x[1][0] == "ptuple" and et[0] == "tup":
+                        for p_, pt in zip(x[1][1], et[1]):
+                            if p_[0] == "pbind" and p_[1] not in known and pt is not None:
+                                known[p_[1]] = pt
+                                changed = True
             if k == "binary":
                 ta, tb = self.ty_of(x[2], known), self.ty_of(x[3], known)
                 if x[1] not in ("&&", "||", "<<", ">>"):
@@ -1270,8 +1295,12 @@ class FnTranslator:
                 ta, tb = self.ty_of(x[2], known), self.ty_of(x[3], known)
                 setv(x[2], tb)
                 setv(x[3], ta)
-            if k == "index" and x[2][0] != "range":
+            if k == "index" and len(x) == 3 and x[2][0] != "range":      # (a struct literal's field may be named index)
                 setv(x[2], T("usize"))
+            if k == "assign" and x[2][0] == "index" and x[2][2][0] != "range":
+                tb = self.ty_of(x[3], known)
+                if tb is not None:
+                    setv(x[2][1], T("Vec", tb))
             if k == "struct":
                 sname = x[1][-1] if x[1][-1] != "Self" else self.impl
                 st_ = self.c.struct(sname)
@@ -1303,6 +1332,21 @@ class FnTranslator:
         while changed:
             changed = False
             walk(body, visit)
+            if body[0] == "block" and body[2] is not None and body[2][0] == "path" and len(body[2][1]) == 1 \
+                    and body[2][1][0] not in known and self.ret is not None and self.ret != UNIT:
+                known[body[2][1][0]] = self.ret          # the tail expression has the return type
+                changed = True
+            if body[0] == "block" and body[2] is not None and body[2][0] == "mcall" and body[2][2] == "into" \
+                    and body[2][1][0] == "path" and len(body[2][1][1]) == 1 and body[2][1][1][0] not in known and is_list(self.ret):
+                known[body[2][1][1][0]] = T("Vec", self.ret[2][0])       # v.into() as the result: a Vec of the returned slice
+                changed = True
+
+        # an integer literal local that nothing constrains has Rust's fallback type i32
+        def fallback(x):
+            if x[0] == "let" and x[1][0] == "pbind" and x[2] is None and x[3] is not None and x[3][0] == "int" \
+                    and not x[3][2] and x[1][1] not in known:
+                known[x[1][1]] = T("i32")
+        walk(body, fallback)
         return known
 
     # ---------------------------------------------------------------- typing (best effort)
@@ -1453,6 +1497,10 @@ class FnTranslator:
                         return T("Vec", bt) if bt else None
                     if m in ("last", "first"):
                         return T("Option", rt[2][0])
+                    if m == "fold" and len(e[3]) == 2:
+                        return self.ty_of(e[3][0], env)
+                    if m == "enumerate" and not e[3]:
+                        return T("slice", ("tup", [T("usize"), rt[2][0]]))
                     if m == "get" and e[3] and e[3][0][0] == "range":
                         return T("Option", T("slice", rt[2][0]))
                 if m == "clone":
@@ -1738,13 +1786,17 @@ class FnTranslator:
             rt = self.ty_of(e[1], env)
             if m in MUTATING_METHODS or m == "into":
                 return None
-            if m in ("iter", "clone", "to_vec", "copied", "cloned", "into_boxed_slice") and not e[3]:
+            if m in ("iter", "clone", "to_vec", "copied", "cloned", "into_boxed_slice") and not e[3] \
+                    and not (rt and rt[0] == "ty" and (rt[1], m) in self.c.fn_info):
                 return self.pure(e[1], env)
             if m in ("max", "min") and not e[3] and is_list(rt) and is_int(rt[2][0]) and not is_nat(rt[2][0]):
                 r0 = self.pure(e[1], env)
                 return None if r0 is None else "(list_%s_opt %s)" % (m, r0)
             if m == "chars" and is_str(rt):
                 return self.pure(e[1], env)
+            if m == "enumerate" and not e[3] and is_list(rt):
+                r0 = self.pure(e[1], env)
+                return None if r0 is None else "(enumerate %s)" % r0
             if e[3] and e[3][0][0] == "closure" and len(e[3]) == 1 and len(e[3][0][1]) == 1:
                 cl = e[3][0]
                 r0 = self.pure(e[1], env)
@@ -2086,6 +2138,8 @@ class FnTranslator:
                 return self.tr_mutcall(e, env, k, info)
             if m == "into" and not e[3]:
                 target = want if want is not None else self.ret
+                if is_list(rt) and is_list(target) and same_type(rt[2][0], target[2][0]):
+                    return self.tr(e[1], env, k)             # Vec<T> -> Box<[T]>: the same list
                 finfo = self.lookup_from(target[1], rt) if target is not None and target[0] == "ty" else None
                 if finfo is None:
                     raise Unsupported(".into() from %s to %s" % (rt, target))
@@ -2096,6 +2150,51 @@ class FnTranslator:
                     t = self.c.fresh()
                     return "do %s <- M_%s %s;\n%s" % (t, finfo["coq"], r, k(t))
                 return self.tr(e[1], env, with_recv)
+            if is_list(rt) and m == "fold" and len(e[3]) == 2 and e[3][1][0] == "closure" and len(e[3][1][1]) == 2:
+                # it.fold(init, |acc, x| body): left fold; the body may panic (monadic)
+                cl = e[3][1]
+                if has_exit(cl[2]):
+                    raise Unsupported("early exit inside a closure")
+                acc_t = self.ty_of(e[3][0], env) or want
+
+                def with_recv_fold(r0):
+                    def with_init(i0):
+                        env2 = dict(env)
+                        pa = self.pat(cl[1][0], acc_t, env2)
+                        px = self.pat(cl[1][1], rt[2][0], env2)
+                        body = self.tr(cl[2], env2, RETURN, acc_t)
+                        t = self.c.fresh()
+                        return "do %s <- fold_m (fun %s %s =>\n%s) %s %s;\n%s" % (t, pa, px, body, r0, i0, k(t))
+                    return self.tr(e[3][0], env, with_init, want)
+                return self.tr(e[1], env, with_recv_fold)
+            if is_list(rt) and m in ("sort_by_key", "retain") and len(e[3]) == 1 and e[3][0][0] == "closure" and len(e[3][0][1]) == 1:
+                # v.sort_by_key(|x| key) is a stable sort; v.retain(|x| keep) keeps the order of the kept elements
+                cl = e[3][0]
+                recv = self.pure(e[1], env)
+                if recv is None:
+                    raise Unsupported("%s on a computed place" % m)
+                env2 = dict(env)
+                ps = self.pat(cl[1][0], rt[2][0], env2)
+                body = self.pure_any(cl[2], env2)
+                if body is None:
+                    raise Unsupported("closure of .%s is not a pure expression" % m)
+                fun = "(fun %s%s => %s)" % ("'" if cl[1][0][0] == "ptuple" else "", ps, body)
+                if m == "sort_by_key":
+                    kt = self.ty_of(cl[2], env2)
+                    if not is_int(kt) or is_z(kt):
+                        raise Unsupported("sort_by_key with a key that is not an unsigned integer")
+                    newv = "(sort_by_key_%s %s %s)" % ("nat" if is_nat(kt) else "N", fun, recv)
+                else:
+                    newv = "(filter %s %s)" % (fun, recv)
+                root, term = self.place_update(e[1], newv, env)
+                return "let %s := %s in\n%s" % (var(root), term, k("tt"))
+            if is_list(rt) and m in ("sort_unstable", "sort") and not e[3] and is_int(rt[2][0]) and not is_z(rt[2][0]):
+                recv = self.pure(e[1], env)
+                if recv is None:
+                    raise Unsupported("%s on a computed place" % m)
+                newv = "(sort_by_key_%s (fun x_ => x_) %s)" % ("nat" if is_nat(rt[2][0]) else "N", recv)
+                root, term = self.place_update(e[1], newv, env)
+                return "let %s := %s in\n%s" % (var(root), term, k("tt"))
             if e[3] and e[3][0][0] == "closure" and len(e[3]) == 1 and len(e[3][0][1]) == 1:
                 # iterator / option adaptor whose closure body is monadic (it calls translated functions)
                 cl = e[3][0]
@@ -2459,24 +2558,35 @@ class FnTranslator:
         binders = "".join(" (%s : %s)" % (var(n), self.c.coq_ty(self.var_ty(n, env))) for n in free + mut)
         mt = self.tuple_ty(mut, env)
         rett = "(loopres %s %s)" % (self.c.coq_ty(self.full_ret), mt)
-        call_again = "%s l_%s" % (name, "".join(" " + var(n) for n in free + mut))
+        # a body that calls a fuelled function receives the fuel of the enclosing function (not decremented:
+        # the recursion is on the list); FUELARG is resolved once the body is translated
+        FUELARG = "@@FUEL%d@@" % self.nloops
+        call_again = "%s%s l_%s" % (name, FUELARG, "".join(" " + var(n) for n in free + mut))
         saved = (self.ret_k, self.break_k, self.continue_k)
         self.ret_k = lambda v: "Some (LoopReturn %s)" % self.finish(v)
         self.break_k = lambda: "Some (LoopDone %s)" % self.tuple_of(mut)
         self.continue_k = lambda: call_again
         ps = self.pat(pat_, elt, env_b)
+        fuel_before = self.uses_fuel
+        self.uses_fuel = False
+        naux = len(self.aux)
         body_code = self.tr(body, env_b, lambda _v: call_again)
+        body_fuel = self.uses_fuel
+        self.uses_fuel = fuel_before or body_fuel
+        fuel_arg = " fuel" if body_fuel else ""
+        body_code = body_code.replace(FUELARG, fuel_arg)
+        self.aux[naux:] = [a_.replace(FUELARG, fuel_arg) for a_ in self.aux[naux:]]
         self.ret_k, self.break_k, self.continue_k = saved
         bindpat = "let %s := x_ in" % ps if pat_[0] == "pbind" else "let '%s := x_ in" % ps
-        self.aux.append("Fixpoint %s (l_ : list %s)%s {struct l_} : option %s :=\n  match l_ with\n  | [] => Some (LoopDone %s)\n  | x_ :: l_ =>\n    %s\n%s\n  end."
-                        % (name, self.c.coq_ty(elt), binders, rett, self.tuple_of(mut), bindpat, indent(peephole(body_code), 4)))
+        self.aux.append("Fixpoint %s%s (l_ : list %s)%s {struct l_} : option %s :=\n  match l_ with\n  | [] => Some (LoopDone %s)\n  | x_ :: l_ =>\n    %s\n%s\n  end."
+                        % (name, " (fuel : nat)" if body_fuel else "", self.c.coq_ty(elt), binders, rett, self.tuple_of(mut), bindpat, indent(peephole(body_code), 4)))
         self.c.aux_names.append(name)
 
         def after_it(l):
             r = self.c.fresh("r")
             x = self.c.fresh("x")
-            return ("do %s <- %s %s%s;\nmatch %s with\n| LoopReturn %s => %s\n| LoopDone %s =>\n%s\nend"
-                    % (r, name, l, "".join(" " + var(n) for n in free + mut), r, x, self.propagate(x),
+            return ("do %s <- %s%s %s%s;\nmatch %s with\n| LoopReturn %s => %s\n| LoopDone %s =>\n%s\nend"
+                    % (r, name, fuel_arg, l, "".join(" " + var(n) for n in free + mut), r, x, self.propagate(x),
                        self.tuple_of(mut) if mut else "_", k("tt")))
         return self.tr(it, env, after_it)
 
@@ -2493,6 +2603,15 @@ class FnTranslator:
                 self.globs.append(x[1][-1])
         walk(self.body, uses)
         self.locals = self.infer_locals(env)
+
+        def mark_nonmut(x):
+            if x[0] == "mcall" and x[2] in MUTATING_METHODS:
+                rt = self.ty_of(x[1], dict(self.locals, self=T(self.impl) if self.impl else None))
+                if rt and rt[0] == "ty":
+                    info = self.c.fn_info.get((rt[1], x[2]))
+                    if info is not None and not info["mutself"]:
+                        NONMUT_NODES.add(id(x))
+        walk(self.body, mark_nonmut)
         rty = self.c.coq_ty(self.full_ret)
         args = "".join(" " + var(n) for n, _t in self.params)
         body_pure = None
@@ -2752,6 +2871,33 @@ MODULES = {
                      + [("CompactTableBuilder", None, f) for f in ("new", "set_default", "resize", "base_conflicts",
                                                                   "store_successors", "set_successors", "build")],
     },
+    "BuilderGen": {
+        "files": ["automata.rs", "character_sets.rs", "smt_strings.rs", "errors.rs"],
+        "types": ["CharSet", "ClassId", "Error", "CharPartition", "StateInConstruction"],
+        "consts": ["MAX_CHAR"],
+        "functions": [("CharSet", None, "pick"), ("CharSet", None, "contains"), ("CharSet", None, "is_before"),
+                      ("CharPartition", None, "len"), ("CharPartition", None, "get"), ("CharPartition", None, "start"),
+                      ("CharPartition", None, "end"), ("CharPartition", None, "class_of_char"),
+                      ("CharPartition", None, "try_from_iter")]
+                     + [("StateInConstruction", None, f) for f in ("new", "set_default_successor", "add_transition",
+                        "choose_default_successor", "remove_transitions_to_default", "cleanup", "make_partition",
+                        "make_successor")],
+    },
+    "AutomatonGen": {
+        "files": ["automata.rs", "character_sets.rs", "smt_strings.rs"],
+        "types": ["CharSet", "ClassId", "CharPartition", "SmtString", "State", "Automaton", "StateMapping",
+                  "EdgeIterator", "FinalStateIterator"],
+        "consts": ["MAX_CHAR"],
+        "functions": [("CharSet", None, "contains"), ("CharSet", None, "is_before")]
+                     + [("CharPartition", None, f) for f in ("len", "empty_complement", "valid_class_id", "class_of_char")]
+                     + [("SmtString", None, "iter")]
+                     + [("State", None, f) for f in ("id", "is_final", "num_successors", "has_default_successor", "default_successor",
+                                                     "valid_class_id", "char_maps_to_default", "class_of_char")]
+                     + [("Automaton", None, f) for f in ("initial_state", "state", "num_states", "num_final_states", "default_successor",
+                                                         "class_next", "next", "str_next", "accepts", "edges", "final_states")]
+                     + [("StateMapping", None, f) for f in ("from_array", "num_new_states", "is_class_rep")]
+                     + [("EdgeIterator", "Iterator", "next"), ("FinalStateIterator", "Iterator", "next")],
+    },
     "PartitionGen": {
         "files": ["character_sets.rs", "smt_strings.rs", "errors.rs"],
         "types": ["CharSet", "CoverResult", "ClassId", "Error", "CharPartition", "ClassIdIterator", "PickIterator"],
@@ -2794,6 +2940,9 @@ def extract_nested(body):
 
 def translate_module(name, repo):
     cfg = MODULES[name]
+    MUTATING_METHODS.clear()              # per module: the &mut self methods of another module must not leak in
+    MUTATING_METHODS.update(BASE_MUTATING)
+    NONMUT_NODES.clear()
     sources = [Source(os.path.join(repo, "src", f)) for f in cfg["files"]]
     ctx = Ctx(name, sources, cfg)
     out = ["(* %s.v -- GENERATED by gen/rs2v.py from %s; do not edit. *)" % (name, ", ".join("src/" + f for f in cfg["files"])),
